@@ -208,7 +208,6 @@ def compare(cfg, program, sr, rr):
     if sr.open_error is not None:
         return None
     prog = list(program) + ([] if sr.closed else [("close",)])
-    tell_ok = True
     for i, op in enumerate(prog):
         a, b = sr.results[i], rr.results[i]
         if a[0] != b[0]:
